@@ -8,6 +8,7 @@ package waddrmgr
 // write (applied to all such functions of the package, including closures) ----
 //@ auto C10 modifies wfault
 //@   ensures fault_reported: wfault && !old(wfault) ==> err != nil
+//@   guarantees fault_reported: wfault && !old(wfault) ==> err != nil
 //@   ensures memory_after_disk: err != nil ==> (forall o Int :: {select(@H(accountInfo.acctName), o)} oldalloc(o) ==> select(@H(accountInfo.acctName), o) == select(old(@H(accountInfo.acctName)), o))
 //@       && (forall o Int :: {select(@H(accountInfo.nextExternalIndex), o)} oldalloc(o) ==> select(@H(accountInfo.nextExternalIndex), o) == select(old(@H(accountInfo.nextExternalIndex)), o))
 //@       && (forall o Int :: {select(@H(accountInfo.nextInternalIndex), o)} oldalloc(o) ==> select(@H(accountInfo.nextInternalIndex), o) == select(old(@H(accountInfo.nextInternalIndex)), o))
@@ -16,7 +17,16 @@ package waddrmgr
 //@       && (forall o Int :: {select(@H(BlockStamp.Height), o)} oldalloc(o) ==> select(@H(BlockStamp.Height), o) == select(old(@H(BlockStamp.Height)), o))
 //@       && @H(atomic.Bool.v) == old(@H(atomic.Bool.v))
 //@       && (forall o Int :: {select(@H(Manager.masterKeyPub), o)} oldalloc(o) ==> select(@H(Manager.masterKeyPub), o) == select(old(@H(Manager.masterKeyPub)), o) && select(@H(Manager.masterKeyPriv), o) == select(old(@H(Manager.masterKeyPriv)), o))
+//@   guarantees memory_after_disk: err != nil ==> (forall o Int :: {select(@H(accountInfo.acctName), o)} oldalloc(o) ==> select(@H(accountInfo.acctName), o) == select(old(@H(accountInfo.acctName)), o))
+//@       && (forall o Int :: {select(@H(accountInfo.nextExternalIndex), o)} oldalloc(o) ==> select(@H(accountInfo.nextExternalIndex), o) == select(old(@H(accountInfo.nextExternalIndex)), o))
+//@       && (forall o Int :: {select(@H(accountInfo.nextInternalIndex), o)} oldalloc(o) ==> select(@H(accountInfo.nextInternalIndex), o) == select(old(@H(accountInfo.nextInternalIndex)), o))
+//@       && (forall o Int :: {select(@H(accountInfo.lastExternalAddr), o)} oldalloc(o) ==> select(@H(accountInfo.lastExternalAddr), o) == select(old(@H(accountInfo.lastExternalAddr)), o))
+//@       && (forall o Int :: {select(@H(accountInfo.lastInternalAddr), o)} oldalloc(o) ==> select(@H(accountInfo.lastInternalAddr), o) == select(old(@H(accountInfo.lastInternalAddr)), o))
+//@       && (forall o Int :: {select(@H(BlockStamp.Height), o)} oldalloc(o) ==> select(@H(BlockStamp.Height), o) == select(old(@H(BlockStamp.Height)), o))
+//@       && @H(atomic.Bool.v) == old(@H(atomic.Bool.v))
+//@       && (forall o Int :: {select(@H(Manager.masterKeyPub), o)} oldalloc(o) ==> select(@H(Manager.masterKeyPub), o) == select(old(@H(Manager.masterKeyPub)), o) && select(@H(Manager.masterKeyPriv), o) == select(old(@H(Manager.masterKeyPriv)), o))
 //@   loopinv no_new_fault: wfault ==> old(wfault)
+//@   gloopinv no_new_fault: wfault ==> old(wfault)
 
 // explicit entries only attach a replay scenario; the fault-propagation
 // clauses come from the auto rule above
@@ -127,13 +137,4 @@ package waddrmgr
 // it was given (sha512B is uninterpreted: the argument is about which bytes
 // are hashed and compared, not about SHA-512).
 //@ macro SALTED(m, pw) = sha512B(bcat(bytes(m.privPassphraseSalt), pw))
-//@ func (*Manager).Unlock(m, ns, passphrase) (err)
-//@   property C17
-//@   requires m: m != nil
-//@   ensures unlocked_accepts_only_remembered: !old(m.watchingOnly.v != 0) && !old(m.locked.v != 0) && err == nil ==> old(SALTED(m, bytes(passphrase))) == old(bytes(m.hashedPrivPassphrase))
-//@   ensures unlocked_rejects_locks: !old(m.watchingOnly.v != 0) && !old(m.locked.v != 0) && err != nil ==> m.locked.v != 0
-//@   ensures remembers_hash: !old(m.watchingOnly.v != 0) && old(m.locked.v != 0) && err == nil ==> bytes(m.hashedPrivPassphrase) == SALTED(m, old(bytes(passphrase))) && m.locked.v == 0
-//@ func (*Manager).lock(m)
-//@   property C17
-//@   requires m: m != nil
-//@   ensures locked: m.locked.v != 0
+// (the Unlock / lock contracts carrying these clauses are in zz_verif_contracts_c05_c04_c03_c08.go: one contract per function)
